@@ -53,8 +53,9 @@ cpy_t* volatile cpy   = static_cast<cpy_t*>(NM(&::memcpy, &::wmemcpy));
 cpy_t* volatile move  = static_cast<cpy_t*>(NM(&::memmove, &::wmemmove));
 set_t* volatile set   = static_cast<set_t*>(NM(&::memset, &::wmemset));
 cmp_t* volatile cmp   = static_cast<cmp_t*>(NM(&::memcmp, &::wmemcmp));
-chr_t* volatile chr   = static_cast<chr_t*>(NM(&::memchr, &::wmemchr));
-chrm_t* volatile chrm = static_cast<chrm_t*>(NM(&::memchr, &::wmemchr));
+// (overloaded const/non-const prototypes differ between compilers: go through captureless lambdas)
+chr_t* volatile chr   = [](Void const* s, Val c, std::size_t n) -> Void const* { return NM(::memchr, ::wmemchr)(s, c, n); };
+chrm_t* volatile chrm = [](Void* s, Val c, std::size_t n) -> Void* { return NM(::memchr, ::wmemchr)(s, c, n); };
 } // namespace ref
 
 #define E(s, w)   etl::NM(s, w)
